@@ -27,6 +27,7 @@ func checkC03(c *Ctx) {
 	// if the output is closed / the waiter returns after every worker finished (P2 incl. P2c)
 	ruleP2(c, map[string]bool{"fun": true}, 8)
 	ruleF9(c)
+	ruleP7(c, pipePkgs)
 }
 
 func ruleE8(c *Ctx) {
